@@ -10,7 +10,7 @@ import itertools
 
 SRC = '''\
 from bisturi.packet import Packet, PacketError
-from bisturi.field import Int, Data
+from bisturi.field import Int, Data, Bits
 from bisturi.descriptor import Auto, AutoLength
 from vlib.hx import assume
 
@@ -29,6 +29,13 @@ class AS(Packet):
     s = Int(1).repeated(n)
 
 
+class AB(Packet):
+    __bisturi__ = dict(OPTS)
+    n = Bits(4).describe(AutoLength('d'))
+    p = Bits(4)
+    d = Data(n)
+
+
 class AF(Packet):
     __bisturi__ = dict(OPTS)
     a = Int(1)
@@ -36,8 +43,8 @@ class AF(Packet):
 
 
 KIND = %(kind)r
-CLS = {"AL": AL, "AS": AS, "AF": AF}[KIND]
-TRACKED = {"AL": "d", "AS": "s", "AF": "a"}[KIND]
+CLS = {"AL": AL, "AS": AS, "AF": AF, "AB": AB}[KIND]
+TRACKED = {"AL": "d", "AS": "s", "AF": "a", "AB": "d"}[KIND]
 
 
 def computed(tracked):
@@ -48,7 +55,7 @@ def computed(tracked):
 
 def tracked_value(t, a):
     """a value for the tracked field from the symbolic inputs of one step"""
-    if KIND == "AL":
+    if KIND in ("AL", "AB"):
         return t
     if KIND == "AS":
         return [x for x in t]
@@ -59,13 +66,15 @@ def encode(n, tracked):
     """expected wire image: the described byte, then the tracked field"""
     if KIND == "AL":
         return bytes([n]) + tracked
+    if KIND == "AB":
+        return bytes([n * 16]) + tracked      # n in the high nibble, the untouched p = 0 in the low one
     if KIND == "AS":
         return bytes([n]) + bytes(tracked)
     return bytes([tracked]) + bytes([n])
 
 
 def default_tracked():
-    return {"AL": b"", "AS": [], "AF": 0}[KIND]
+    return {"AL": b"", "AS": [], "AF": 0, "AB": b""}[KIND]
 
 
 def check(p, explicit, tracked, step):
@@ -158,6 +167,9 @@ def _mk(ix):
                     assume(0 <= as_[i] <= 255)
                 else:
                     assume(len(ts[i]) <= 2)
+            if KIND == "AB" and i < n and hist[i] in "SC":
+                # a bit field given a value outside its range is reduced mod 2**w (C07): explicit values stay inside it
+                assume(0 <= [v0, v1, v2, v3, v4, v5][i] <= 15)
         r = run(hist, [v0, v1, v2, v3, v4, v5], ts, as_)
         return r if r is not None else "ok:consistent"
     return h
@@ -171,7 +183,7 @@ def build(tier, seed):
     n = 3 if tier == "quick" else 4
     steps = "TSDUP"
     obs = []
-    for kind in ("AL", "AS", "AF"):
+    for kind in ("AL", "AS", "AF", "AB"):
         for gen, opts in (("generic", "'generate_for_pack': False, 'generate_for_unpack': False"), ("generated", "")):
             for init in "cCK":
                 for first in steps:
@@ -187,13 +199,14 @@ def build(tier, seed):
                                     "source": src, "fn": ["h%d" % i for i in range(len(hists))], "required_tags": ["consistent"],
                                     "timeout": 240 if tier == "quick" else 900,
                                     "bound": "all %d histories starting %s followed by %d more ops over {T set tracked, S set described, D delete, "
-                                             "U unpack, P pack}; explicit values unbounded ints, tracked contents <=2 symbolic bytes / a byte"
+                                             "U unpack, P pack}; explicit values unbounded ints (0..15 for the Bits kind AB), tracked contents <=2 symbolic bytes / a byte"
                                              % (len(hists), tag, 1 + n - len(tag)),
                                     "assertion": "after every step: attribute == explicit ?? f(tracked); pack() serialises exactly that (PacketError "
                                                  "iff not representable); no instance __dict__; pack leaves the attribute unchanged",
                                     "decl_text": {"AL": "n = Int(1).describe(AutoLength('d')); d = Data(n)",
                                                   "AS": "n = Int(1).describe(AutoLength('s')); s = Int(1).repeated(n)",
-                                                  "AF": "a = Int(1); n = Int(1).describe(Auto(lambda pkt: (pkt.a*2+1) % 256))"}[kind]})
+                                                  "AF": "a = Int(1); n = Int(1).describe(Auto(lambda pkt: (pkt.a*2+1) % 256))",
+                                                  "AB": "n = Bits(4).describe(AutoLength('d')); p = Bits(4); d = Data(n)"}[kind]})
     return {"obligations": obs,
             "bounds": {"history_length": 1 + n, "initial": "c (no keyword), C (described keyword), K (tracked keyword)", "ops": steps},
             "outside": ["histories longer than %d operations" % (1 + n), "tracked contents longer than 2 bytes / elements"],
